@@ -731,12 +731,13 @@ class Interp:
             return None
         if getattr(self.domain, "heap", False) and any(isinstance(n_, ast.Call) for n_ in ast.walk(f.value)):
             # <a call>.append(v): when the call hands back an object some holder keeps (a list on the heap), that object grows
-            got = self.eval(f.value, st, fr, share=True)
-            if not got or not all(r0.kind == "exc" or (is_handle(r0.value) and isinstance(r0.state.get(heap_key(r0.value), None), tuple)
-                                                      and r0.state.get(heap_key(r0.value))[:1] == ("tuple",)) for r0 in got):
+            got = self.eval(f.value, st, fr, share=True) if self._slot_of(f.value, fr, st) is None else []
+            shared = bool(got) and all(r0.kind == "exc" or (is_handle(r0.value) and isinstance(r0.state.get(heap_key(r0.value), None), tuple)
+                                                         and r0.state.get(heap_key(r0.value))[:1] == ("tuple",)) for r0 in got)
+            if got and not shared:
                 return None
             out = []
-            for r0 in got:
+            for r0 in (got if shared else []):
                 if r0.kind == "exc":
                     out.append(r0)
                     continue
@@ -748,7 +749,8 @@ class Interp:
                     base = r.state.get(hk)
                     els = [r.value] if f.attr == "append" else self._exact_elements(r.value)
                     out.append(val(NONE, r.state.set(hk, base + tuple(els) if els is not None else TOP)))
-            return out
+            if shared:
+                return out
         key = self._key_of(f.value, fr, st)   # a local, or an attribute of self kept in the state
         if key is None or not st.has(key):
             return None
@@ -1399,6 +1401,38 @@ class Interp:
             exact = self._exact_elements(r.value)
             if exact is not None:
                 out.extend(self._for_exact(s, exact, r.state, fr))
+                continue
+            puller = getattr(d, "pull", None)
+            if puller is not None and getattr(d, "pullable", lambda v: False)(r.value):
+                # an iterator whose elements come into being as they are asked for (iter(f, sentinel), map over it ...):
+                # one element at a time, each with the state the previous iteration left
+                work = [(r.value, r.state)]
+                exits = []
+                for _ in range(getattr(d, "pull_limit", 64) + 1):
+                    nxt = []
+                    for seq, cur in work:
+                        for kind_, el, rest, s1 in puller(self, seq, cur, fr):
+                            if kind_ == "end":
+                                exits.append(s1)
+                            elif kind_ == "exc":
+                                out.append(("raise", el, s1))
+                            elif kind_ == "unknown":
+                                raise Undecided(f"the loop at line {s.lineno} of {fr.name} iterates something the model cannot follow")
+                            else:
+                                for kind, payload, s3 in self.exec_block(s.body, [self.assign(s.target, el, s1, fr)], fr):
+                                    if kind in ("next", "continue"):
+                                        nxt.append((rest, s3))
+                                    elif kind == "break":
+                                        out.append(("next", None, s3))
+                                    else:
+                                        out.append((kind, payload, s3))
+                    work = list(dict.fromkeys(nxt))
+                    if not work:
+                        break
+                else:
+                    raise Undecided(f"the loop at line {s.lineno} of {fr.name} does not end within the analysis budget")
+                if exits:
+                    out.extend(self.exec_block(s.orelse, exits, fr) if s.orelse else [("next", None, e) for e in exits])
                 continue
             kind0 = d.iter_kind(r.value)
             seen = set()
